@@ -258,7 +258,7 @@ def check(pid, tier):
             # service's own lease file read (and aged) through the harness's connection
             import http_rig
             pk = [s for s in scen if s.get("lvl") == "pkt" and not any(st["k"] == "msg" and st.get("relay") for st in s["steps"])]
-            pick = pk if run.thorough else run.rng.sample(pk, min(len(pk), 25))
+            pick = pk if run.thorough else run.rng.sample(pk, min(len(pk), 60))
             tf, sl, p = http_rig.run_full(run, pid, [{"acls": None, "lease": s, "steps": []} for s in pick], "lease")
             if not any('"lvl":"svc"' in l for l in sl):
                 raise ToolError("rig full produced no service-level lease events (exit %s): %s" % (p.returncode, (p.stderr or "")[-300:]))
